@@ -1062,7 +1062,8 @@ impl<'a> PathRun<'a> {
                         self.finding("C09", "add_expr and lookup_rec_expr disagree", key, path, step, "",
                             json!({"term": ctx.us[i].show()}));
                     }
-                    if h.slots() != found.slots() {
+                    // (add_syn_expr returns the SYNTACTIC invocation, which keeps the slots that are redundant semantically)
+                    if !*SYN_ADD.get().unwrap_or(&false) && h.slots() != found.slots() {
                         self.finding("C09", "add_expr and lookup_rec_expr return different slots", key, path, step, "",
                             json!({"term": ctx.us[i].show()}));
                     }
